@@ -101,6 +101,22 @@ func runC10Seq(r *Run, seed int64) {
 		sp := spell(rng, ch, "")
 		chain := pick(rng, "btc", "lbtc")
 		op := pick(rng, "local-out", "local-in", "req-in", "req-out", "cancel", "window-req", "restart", "advance", "advance", "restart-faulty")
+		a.Fault = nil
+		if (op == "local-out" || op == "local-in" || op == "req-in" || op == "req-out") && rng.Intn(3) == 0 {
+			// a transient error of the swap store during the start of this swap: its 2nd or 3rd write fails once (the
+			// request / agreement has left by then and the record of the new swap exists)
+			k, n := 2+rng.Intn(2), 0
+			a.Fault = func(o string) error {
+				if o == "store.write" {
+					n++
+					if n == k {
+						return fmt.Errorf("injected: store write failed")
+					}
+				}
+				return nil
+			}
+			hist = append(hist, fmt.Sprintf("store-write-%d-of-next-op-fails", k))
+		}
 		switch op {
 		case "advance":
 			// the peer takes the next honest step of one live swap in which the node is the maker, so that the node
